@@ -50,7 +50,7 @@ func checkCli(c CliCase) error {
 	}
 	extra, stdin, files, _ := cli.Present(mode, text, "-i")
 	for n, content := range files {
-		cli.Write(dir, n, content)
+		cli.WriteIn(dir, n, content)
 	}
 	args := append([]string{"reformat", "newick"}, extra...)
 	if c.ToFile {
